@@ -3,7 +3,9 @@
 Proof of mechanism under A8/A9 + bounded cross-check (DESIGN section 5, C39).  `Lexer.tokeniter` is a ~150-line generator
 driven by a regex state stack; it is verified as STRAIGHT-LINE SEGMENTS of the real AST (located by structure):
 
-  segment INIT   the statements between the preamble (C11.preamble) and the `while`        -> the invariant holds on entry
+  segment PRE    the first statements (line-break normalisation, trailing newline): the VC of C11.preamble, run here as
+                 C39.tokeniter.preamble: working source = LF-join of the lines minus at most one trailing empty line
+  segment INIT   the statements between the preamble and the `while`                       -> the invariant holds on entry
   segment BODY   the whole body of `for regex, tokens, new_state in statetokens`, once per distinct rule shape of the A9
                  family, with the rule's REAL tokens/new_state objects and an abstract match object obeying the regex facts
                  of the rule's real pattern (partition / one_named / sign groups / min width; A8)  -> invariant preserved
@@ -725,12 +727,16 @@ import jinja2.ext as EXT  # noqa: E402
 from pyvc.stmts import LoopSpec  # noqa: E402
 from pyvc.values import SSeq, fresh_arr  # noqa: E402
 
+# token types / values / comment tags are modelled as abstract atoms (only equality and the uninterpreted split / rstrip
+# functions matter): goals mixing quantified array axioms with z3 strings made z3 ignore its timeout now and then
+from pyvc.values import Obj as O_  # noqa: E402
+from pyvc.smt import str2obj  # noqa: E402
 S_, I_, B_ = z3.StringSort(), z3.IntSort(), z3.BoolSort()
-f_has2 = z3.Function("split_has_two_fields", S_, B_)  # v.split(None, 1) has two fields
-f_first = z3.Function("split_first_field", S_, S_)
-f_rest = z3.Function("split_rest", S_, S_)
-f_rstrip = z3.Function("py_rstrip", S_, S_)
-TOK_KIND = ("int", "str", "str")
+f_has2 = z3.Function("split_has_two_fields", O_, B_)  # v.split(None, 1) has two fields
+f_first = z3.Function("split_first_field", O_, O_)
+f_rest = z3.Function("split_rest", O_, O_)
+f_rstrip = z3.Function("py_rstrip", O_, O_)
+TOK_KIND = ("int", "obj", "obj")
 
 
 def abstract_seq_specs(I):
@@ -783,7 +789,7 @@ class FinderBase(VC):
         self.tokens = A.alist(st, "tokens", TOK_KIND)
         h = st.get(self.tokens)
         (self.LN, self.TY, self.VAL), self.N = h.arr, h.n
-        self.tags = A.alist(st, "comment_tags", "str")
+        self.tags = A.alist(st, "comment_tags", "obj")
         ht = st.get(self.tags)
         self.TAGS, self.NT = ht.arr, ht.n
         self.off0 = sym("self.offset", "int")
@@ -799,7 +805,7 @@ class FinderBase(VC):
     def tagged(self, i):
         """token i is a translator comment: a comment / line comment whose first field is one of the comment tags"""
         ty, v = z3.Select(self.TY, i), z3.Select(self.VAL, i)
-        return z3.And(z3.Or(ty == z3.StringVal("comment"), ty == z3.StringVal("linecomment")), f_has2(v), self.in_tags(f_first(v)))
+        return z3.And(z3.Or(ty == str2obj(z3.StringVal("comment")), ty == str2obj(z3.StringVal("linecomment"))), f_has2(v), self.in_tags(f_first(v)))
 
 
 class FindComments(FinderBase):
@@ -820,7 +826,7 @@ class FindComments(FinderBase):
             i = z3.Int(fresh_name("i"))
             return [z3.ForAll([i], z3.Implies(z3.And(c.off0.t <= i, i < c.off0.t + ctx.k), z3.Select(c.LN, i) <= c.l.t))]
 
-        I.loops[("_CommentFinder.find_comments", 0)] = LoopSpec(inv, havoc={"idx": "int", "token_lineno": "int", "_": "str"}, name="scan")
+        I.loops[("_CommentFinder.find_comments", 0)] = LoopSpec(inv, havoc={"idx": "int", "token_lineno": "int", "_": "obj"}, name="scan")
 
     def setup(self, I, st):
         self.mk_finder(st)
@@ -868,31 +874,26 @@ class FindBackwards(FinderBase):
         abstract_seq_specs(I)
         c = self
 
-        def split_h(I_x, st, args, kwargs, node):
-            recv = args[0]
-            if len(args) != 3 or args[1] is not None or args[2] != 1:
-                raise Unsupported("str.split: only split(None, 1) is specified", node)
+        def method_obj(I_x, st, args, kwargs, node):
+            recv, name, rest = args[0], args[1], list(args[2:])
             from pyvc import models
-            models.used("str.split(None, 1) [two fields (first word, rest) or fewer; uninterpreted]")
-            v = to_term(recv, "str")
-            out = []
-            for s1, b in I_x.fork_bool(st, f_has2(v)):
-                out.append((s1, (Sym(f_first(v), "str"), Sym(f_rest(v), "str")) if b else (recv,)))
-            return out
-
-        I.specs["str.split"] = split_h
-        keep = []
-
-        def hook(I_x, st, obj, name, node):
-            if isinstance(obj, Sym) and obj.k == "str" and name == "rstrip":
-                stub = X.HostStub("str.rstrip")
-                keep.append(stub)
-                I_x.specs[("fn", id(stub))] = lambda I_y, s, a, k, n, o=obj: [(s, Sym(f_rstrip(o.t), "str"))]
-                return [(st, stub)]
+            v = to_term(recv, "obj")
+            if name == "split":
+                if rest != [None, 1] or kwargs:
+                    raise Unsupported("str.split: only split(None, 1) is specified", node)
+                models.used("str.split(None, 1) [two fields (first word, rest) or fewer; uninterpreted]")
+                out = []
+                for s1, b in I_x.fork_bool(st, f_has2(v)):
+                    out.append((s1, (Sym(f_first(v), "obj"), Sym(f_rest(v), "obj")) if b else (recv,)))
+                return out
+            if name == "rstrip" and not rest and not kwargs:
+                models.used("str.rstrip() [uninterpreted function of its argument]")
+                return [(st, Sym(f_rstrip(v), "obj"))]
             return None
 
-        I.attr_hook = hook
-        I._keep_stubs = keep
+        I.specs["method_obj"] = method_obj
+        from pyvc.values import BoundMethod
+        I.specs["getattr_obj"] = lambda I_x, st, args, kwargs, node: [(st, BoundMethod(args[0], args[1]))] if args[1] in ("split", "rstrip") else None
 
         def inv(ctx):
             # the k tokens looked at so far (from `offset` downwards) are not translator comments
@@ -900,7 +901,7 @@ class FindBackwards(FinderBase):
             return [z3.ForAll([i], z3.Implies(z3.And(c.offset.t - ctx.k <= i, i < c.offset.t), z3.Not(c.tagged(i))))]
 
         I.loops[("_CommentFinder.find_backwards", 0)] = LoopSpec(
-            inv, havoc={"_": "int", "token_type": "str", "token_value": "str", "prefix": "str", "comment": "str"}, name="backwards")
+            inv, havoc={"_": "int", "token_type": "obj", "token_value": "obj", "prefix": "obj", "comment": "obj"}, name="backwards")
 
     def setup(self, I, st):
         self.mk_finder(st)
@@ -922,7 +923,7 @@ class FindBackwards(FinderBase):
         if len(items) != 1:
             return False
         j = z3.Int(fresh_name("j"))
-        return z3.Exists([j], z3.And(lo <= j, j < hi, self.tagged(j), to_term(items[0], "str") == f_rstrip(f_rest(z3.Select(self.VAL, j))),
+        return z3.Exists([j], z3.And(lo <= j, j < hi, self.tagged(j), to_term(items[0], "obj") == f_rstrip(f_rest(z3.Select(self.VAL, j))),
                                      z3.ForAll([i], z3.Implies(z3.And(j < i, i < hi), z3.Not(self.tagged(i))))))
 
     def p_consumed(self, pre, out):
@@ -1030,7 +1031,7 @@ def replay_finder(w):
 NSHARDS = 16
 
 
-def lex_case(ids, setting, fam="default"):
+def lex_case(ids, setting, fam="default", br="\n"):
     kw = RF.delimiter_families()[fam + "/trim=0,lstrip=0"]
     key = (fam, setting)
     if key not in _lex_envs:
@@ -1040,6 +1041,8 @@ def lex_case(ids, setting, fam="default"):
     src = X.source_of(parts)
     wp = X.working_parts(parts)
     stream, gaps = X.expected_stream(wp, setting[0], setting[1])
+    if br != "\n":
+        src = src.replace("\n", br)  # the same source written with CRLF / CR line breaks: same working source, same tokens
     try:
         toks = list(env.lex(src))
     except Exception as ex:  # noqa
@@ -1056,16 +1059,20 @@ def bounded_lex(shard):
         n, out = 0, []
         work = [("default", ids) for ids in X.corpus_sample(tier, seed, shard, NSHARDS)]
         fams = ("default", "asp", "dollar", "shared")
+        work = [(f, i, "\n") for f, i in work]
         if shard < len(fams):
-            work += [(fams[shard], ids) for ids in X.family_sample(seed)]
-        for fam, ids in work:
+            work += [(fams[shard], ids, "\n") for ids in X.family_sample(seed)]
+        elif shard < len(fams) + 2:
+            # line-break normalisation and trailing-newline removal: the same sources written with CRLF / CR breaks
+            work += [("default", ids, ("\r\n", "\r")[shard - len(fams)]) for ids in X.family_sample(seed)]
+        for fam, ids, br in work:
             for setting in X.SETTINGS:
-                src, bad = lex_case(ids, setting, fam)
+                src, bad = lex_case(ids, setting, fam, br)
                 n += 1
                 if bad and not out:
                     out.append(Res(f"C39.bounded.lex[{shard}].case", "refuted", "native", time.time() - t0,
                                    f"{fam} delimiters, {src!r} trim_blocks={setting[0]} lstrip_blocks={setting[1]}: {bad}", "bounded",
-                                   {"family": fam, "tags": list(ids[0]), "seps": list(ids[1]), "trim_blocks": setting[0], "lstrip_blocks": setting[1]}))
+                                   {"family": fam, "tags": list(ids[0]), "seps": list(ids[1]), "trim_blocks": setting[0], "lstrip_blocks": setting[1], "br": br}))
         task.stats = {"sources_lexed": n}
         if not out:
             out.append(Res(f"C39.bounded.lex[{shard}]", "bounded-ok", "native", time.time() - t0,
@@ -1076,7 +1083,7 @@ def bounded_lex(shard):
 
 
 def replay_lex(w):
-    src, bad = lex_case((tuple(w["tags"]), tuple(w["seps"])), (w["trim_blocks"], w["lstrip_blocks"]), w.get("family", "default"))
+    src, bad = lex_case((tuple(w["tags"]), tuple(w["seps"])), (w["trim_blocks"], w["lstrip_blocks"]), w.get("family", "default"), w.get("br", "\n"))
     return (bool(bad), f"{src!r}: {bad}")
 
 
@@ -1084,7 +1091,7 @@ def bounded_tasks():
     ts = []
     for k in range(NSHARDS):
         t = FnTask(PROP, f"C39.bounded.lex[{k}]", bounded_lex(k), kind="bounded", replay_fn=replay_lex)
-        t.bound_text = X.CORPUS_BOUND + f" (shard {k} of {NSHARDS})" + ("; plus " + X.FAMILY_BOUND if k < 4 else "")
+        t.bound_text = X.CORPUS_BOUND + f" (shard {k} of {NSHARDS})" + ("; plus " + X.FAMILY_BOUND if k < 4 else "; plus the extended skeletons (default delimiters) written with CRLF / CR line breaks" if k < 6 else "")
         ts.append(t)
     return ts
 
@@ -1097,7 +1104,9 @@ _finder_bounded = FnTask(PROP, "C39.comment_finder.bounded", bounded_finder, kin
 _finder_bounded.bound_text = ("token lists of length <= 3 (thorough 4) over 5 token values x nondecreasing lines 1..3, comment tags ['NOTE:'] or [], "
                               "nondecreasing query sequences of length <= 2 over lines 0..4")
 
-TASKS = (BODY_TASKS + [LoopInit(s) for s in (None, "root", "variable", "block", "bogus")] + [LoopEnd(), EnvLex(), X.HardTask(FindComments()), X.HardTask(FindBackwards()),
+from contracts.c11 import Preamble as _Preamble  # noqa: E402  (the first statements of tokeniter: line-break normalisation, trailing newline)
+
+TASKS = (BODY_TASKS + [_Preamble("C39.tokeniter.preamble")] + [LoopInit(s) for s in (None, "root", "variable", "block", "bogus")] + [LoopEnd(), EnvLex(), FindComments(), FindBackwards(),
          FnTask(PROP, "C39.tokeniter.frame", loop_frame, kind="table"), FnTask(PROP, "C39.states.closed", states_closed, kind="table"),
          _finder_bounded]
          + bounded_tasks())
